@@ -11,12 +11,15 @@ RULE = ("pool of programs with near-twins (pairs differing in one literal / oper
         "evaluations in random order (each pair several times), kept ASTs re-executed on fresh equal contexts, parse-only steps bracketed by context "
         "snapshots, and the same on 2-16 threads with separate contexts; every outcome (result, final bindings, expr(), AST) is compared with the alone run. "
         "distinct class = (program id, position bucket in history, sequential | threaded | kept-AST | parse-only)")
-WORDS = ["wplus", "wjoin", "wneg", "wpost"]
+WORDS = ["wplus", "wjoin", "wneg", "wpost", "minov", "sumov"]
 REG = {
     "wplus": {"op": "reg_infix", "name": "wplus", "prec": 110, "type": "CALC", "assoc": "LEFT", "beh": {"id": 501, "ret": "tag"}},
     "wjoin": {"op": "reg_infix", "name": "wjoin", "prec": 30, "type": "CALC", "assoc": "RIGHT", "beh": {"id": 502, "ret": "tag"}},
     "wneg": {"op": "reg_prefix", "name": "wneg", "beh": {"id": 503, "ret": "tag"}},
     "wpost": {"op": "reg_postfix", "name": "wpost", "beh": {"id": 504, "ret": "tag"}},
+    # user overrides of built-in functions: they must stay in force whatever other programs do afterwards
+    "minov": {"op": "reg_fn", "name": "min", "beh": {"id": 505, "ret": "tag"}},
+    "sumov": {"op": "reg_fn", "name": "sum", "beh": {"id": 506, "ret": "tag"}},
 }
 FNS = {"last": {"id": 9, "log": False, "ret": "last"}}
 
@@ -35,7 +38,9 @@ def make_pool(rnd, n):
             text = ref.Renderer(rnd=rnd).render(tg.gen("A", rnd.randint(1, 4)))
         else:
             w = rnd.choice(WORDS)
-            text = {"wplus": "6 wplus 4 * 2", "wjoin": "a wjoin 2 wjoin 3", "wneg": "wneg 3 + 1", "wpost": "7 wpost"}[w]
+            text = {"wplus": "6 wplus 4 * 2", "wjoin": "a wjoin 2 wjoin 3", "wneg": "wneg 3 + 1", "wpost": "7 wpost", "minov": "min(3, 4)", "sumov": "[sum(1, 2), nosuchfunction(1)]"}[w]
+            if rnd.random() < 0.25:
+                text = rnd.choice(["nosuchfunction(1)", "max(1, nosuch2())", "min(2, 1) + sum(1)", "mul(2, 3) ; undefined_fn()"])
             if rnd.random() < 0.5:
                 text = "x = " + text + "; x"
         vars_ = g.init_ctx()
@@ -118,7 +123,7 @@ def run_shard(desc):
         n = rnd.randint(200, 600) if not threaded else rnd.randint(80, 250)
         if threaded:
             # registrations first (they are part of every thread's input), then T threads with own contexts
-            regs = rnd.sample(WORDS, rnd.randint(0, 4))
+            regs = rnd.sample(WORDS, rnd.randint(0, 5))
             T = rnd.choice([2, 4, 8, 16])
             plans, metas = [], []
             for t in range(T):
@@ -153,7 +158,7 @@ def run_shard(desc):
         # sequential history
         steps, plan = [], []
         regs = []
-        to_reg = rnd.sample(WORDS, rnd.randint(0, 4))
+        to_reg = rnd.sample(WORDS, rnd.randint(0, 5))
         reg_at = sorted(rnd.sample(range(10, n), len(to_reg)))
         kept = {}
         cid = 0
